@@ -4,6 +4,7 @@ import (
 	"fmt"
 	"go/ast"
 	"go/types"
+	"os"
 
 	"golang.org/x/tools/go/ssa"
 )
@@ -85,10 +86,14 @@ func (x *vc) mapInvFormula(st *state, mt *types.Map, v Val) string {
 }
 
 func (x *vc) recordExternalResult(fr *frame, callee *ssa.Function, res Val, guard string) {
+	x.recordNamedResult(fr, extName(callee), res, guard)
+}
+
+// recordNamedResult: the result of the k-th call named what (in generation order), for ret("what#k", i)
+func (x *vc) recordNamedResult(fr *frame, what string, res Val, guard string) {
 	if !fr.top {
 		return
 	}
-	what := extName(callee)
 	if x.callRes == nil {
 		x.callRes = map[string]Val{}
 		x.callResOrd = map[string]int{}
@@ -233,3 +238,6 @@ func (x *vc) rtypeOfInit(e ast.Expr, info *types.Info, depth int) types.Type {
 	}
 	return nil
 }
+
+// dropTaggedPostsFor: analysis mode, see applyContract
+var dropTaggedPostsFor = os.Getenv("GOVC_DROP_TAGGED_POSTS")
